@@ -572,6 +572,12 @@ func c06(r *rng, tier string, o *out) {
 		}
 		line := sb.String()
 		impl, viol := runCase("C06", line)
+		// the model takes gzip from the table in the case line. Which gzip stream the writer produces for a blob (level, header
+		// fields) is not fixed by the property - only that it gunzips to the blob, which the oracle checks - so the table is filled
+		// with the streams the implementation itself stored, where they differ from the harness's own
+		if changed := c06refill(&line, impl, rows); changed {
+			impl, viol = runCase("C06", line)
+		}
 		idx := o.emit(line, impl, len(rows) > 1)
 		o.count("convert_" + format)
 		if impl == "err" {
@@ -581,6 +587,49 @@ func c06(r *rng, tier string, o *out) {
 			o.violation(idx, v)
 		}
 	}
+}
+
+// c06refill replaces, in a convert case line, the gzip column of every raw blob by the stream the implementation stored for that tile
+// (taken from its output, if that stream gunzips to the blob).
+func c06refill(line *string, impl string, rows []mbRow) bool {
+	if !strings.HasPrefix(impl, "ok ") {
+		return false
+	}
+	t := newToks(impl)
+	t.s()
+	for i := 0; i < 17; i++ {
+		t.s()
+	}
+	es := t.ents()
+	data := unhx(t.s())
+	stored := map[string]string{} // blob hex -> stored stream hex
+	for _, rw := range rows {
+		if len(rw.blob) == 0 || (len(rw.blob) >= 2 && rw.blob[0] == 31 && rw.blob[1] == 139) {
+			continue
+		}
+		id := pmtiles.ZxyToID(rw.z, rw.x, (uint32(1)<<rw.z)-1-rw.y)
+		for _, e := range es {
+			if e.ID <= id && id-e.ID < uint64(e.Run) && e.Off+uint64(e.Len) <= uint64(len(data)) {
+				c := data[e.Off : e.Off+uint64(e.Len)]
+				if u, err := gunz(c); err == nil && bytes.Equal(u, rw.blob) {
+					stored[hx(rw.blob)] = hx(c)
+				}
+			}
+		}
+	}
+	f := strings.Fields(*line)
+	changed := false
+	// rows are the trailing groups of five tokens: z x y blobhex gzhex
+	for i := len(f) - 5*len(rows); i+4 < len(f); i += 5 {
+		if g, ok := stored[f[i+3]]; ok && f[i+4] != "-" && f[i+4] != g {
+			f[i+4] = g
+			changed = true
+		}
+	}
+	if changed {
+		*line = strings.Join(f, " ")
+	}
+	return changed
 }
 
 func pow10(k int) int64 {
